@@ -105,6 +105,11 @@ prop('C15', 'model_checking', 'explicit-state BFS over histories of xattr set/re
      '(entry order, hashes, reference counts, ea_inode references, block and inode accounting, i.e. no leak and no double free).',
      'depth-bounded; quick uses 5 configurations and a reduced second level. Known finding: value-inode blocks are not charged to the owner\'s i_blocks. One defect (values above 64 KiB accepted but unreadable) was repaired.', '4/C15')
 
+prop('C10', 'model_checking', 'exhaustive directory-size sweep (one insert/remove at a time through debugfs, re-indexing interleaved) plus BFS over namespace operations from every state just before a structural event; name-set reference model and independent reader/checker after every step',
+     'For linear, indexed (odd and even index limits), inline-data, no-filetype, 4k and large_dir configurations and three name sequences (4-byte, 250-byte, mixed) names are inserted one at a time up to 300-700 entries with e2fsck -fyD at 40 and 200 names, then removed in 2-4 orders: after the steps the independent listing equals the model, '
+     'every name resolves to the right type and link count, the independent checker (incl. htree hash ranges with its own hash functions) is clean and e2fsck -fn exits 0. From every state just before a new block / index creation / index level a BFS of depth 1-2 over mkdir, create, symlink, mknod, hard link, rm and rmdir on six names (existing, new, 255-byte) is run with the same oracle.',
+     'quick checks every insert up to 130 names and every third afterwards, BFS depth 1 from up to 6 threshold states per configuration; hash-colliding names are not constructed. One defect (debugfs mknod duplicated an existing name) was repaired.', '4/C10')
+
 def main():
     props = [json.loads(l) for l in open(os.path.join(V, 'properties.jsonl'))]
     checks, na = [], []
